@@ -30,9 +30,12 @@ What is proved here, once over the tables:
   whatever their case; the conflicts Redis has and the code lacks are `*_not_rejected`.
 * `lua_roundtrip_partial` — `luaToResp (respToLua r) = r` for every `ConvStable` reply; the full
   statement is refuted (`lua_roundtrip_counterexample`: nil array, nil inside arrays).
-* The statements "the two RESP parsers agree" and "the Lua translator agrees with the RESP parser"
-  are refuted by kernel-checked witnesses (`parsers_agree_counterexample`, `lua_agrees_counterexample`,
-  known findings) next to the proved partial forms (`parsers_agree_partial`, `lua_agrees_partial`).
+* `parsers_agree` — full strength since the fixes of the LPUSH/RPUSH/SADD texts and the ACL stubs:
+  the zero-copy parser and `from_resp` answer the same for every frame.
+* "the Lua translator agrees with the RESP parser" is refuted by kernel-checked witnesses
+  (`lua_agrees_counterexample`: it knows 33 command names, its own error texts; known findings) next to the
+  proved form `lua_agrees_partial`: whatever the translator accepts, the RESP grammar accepts with
+  the same command, field by field (no exception left since the SET NX/XX and LIMIT fixes).
 -/
 namespace RedisVerif
 namespace C16
@@ -107,34 +110,6 @@ theorem parse_case_insensitive_lua (f f' : List Bytes) (h : frameVariant luaTabl
     simp only [frameVariant, Bool.and_eq_true] at h
     have hk : kw n' = kw n := (kw_congr h.1).symm
     simp only [parseLua, hk, hw]
-
-/-- the zero-copy parser: its deviations are keyed by normalised names, so the same holds -/
-theorem parse_case_insensitive_zc (f f' : List Bytes) (h : frameVariant table f f' = true) :
-    parseCmdZc f = parseCmdZc f' := by
-  have hp := parse_case_insensitive f f' h
-  match f, f' with
-  | [], [] => rfl
-  | [], _ :: _ => simp [frameVariant] at h
-  | _ :: _, [] => simp [frameVariant] at h
-  | n :: args, n' :: args' =>
-    simp only [frameVariant, Bool.and_eq_true] at h
-    obtain ⟨hn, h⟩ := h
-    have hk : kw n' = kw n := (kw_congr hn).symm
-    by_cases hacl : kw n = s2b "ACL"
-    · -- ACL is a family: the sub-command is a keyword position
-      have he : findEntry table (kw n) = some (.family (s2b "ACL") (s2b "ACL requires a subcommand") aclSubs
-          (fun sub _ => .error (.body (.fmt .unknownAcl sub)))) := by rw [hacl]; rfl
-      rw [he] at h
-      simp only at h
-      match args, args' with
-      | [], [] => simp only [parseCmdZc, hk, hp]
-      | [], _ :: _ => simp at h
-      | _ :: _, [] => simp at h
-      | sub :: r, sub' :: r' =>
-        simp only [Bool.and_eq_true] at h
-        have hks : kw sub' = kw sub := (kw_congr h.1).symm
-        simp only [parseCmdZc, hk, hks, hp]
-    · cases args <;> cases args' <;> simp [parseCmdZc, hk, hacl, hp]
 
 /-- non-vacuity: a mixed-case frame with options is a variant of the upper-case one, and parses -/
 example :
@@ -325,48 +300,46 @@ example : parseCmd [s2b "acl"] = .error (.arity (s2b "ACL requires a subcommand"
 /-- full statement of the first half of C16 -/
 def C16_parsers_agree : Prop := ∀ f : List Bytes, parseCmdZc f = parseCmd f
 
-/-- proved form: they agree on every frame whose command is not LPUSH / RPUSH / SADD / ACL -/
-theorem parsers_agree_partial (name : Bytes) (args : List Bytes)
-    (h : (kw name != s2b "ACL" && (zcArityErr.lookup (kw name)).isNone) = true) :
-    parseCmdZc (name :: args) = parseCmd (name :: args) := by
-  rw [Bool.and_eq_true] at h
-  have hacl : ¬ kw name = s2b "ACL" := by simpa using h.1
-  have hl : List.lookup (kw name) zcArityErr = none := by simpa using h.2
-  unfold parseCmdZc
-  cases args with
-  | nil =>
-    simp only [hl]
-    cases parseCmd [name] with
-    | ok c => rfl
-    | error e => cases e <;> rfl
-  | cons sub r =>
-    simp only [hacl, false_and, if_false, hl]
-    cases parseCmd (name :: sub :: r) with
-    | ok c => rfl
-    | error e => cases e <;> rfl
+/-- proved at full strength (the difference lists `zcArityErr`, `zcAclStubs` are empty since the
+    fixes; before them LPUSH/RPUSH/SADD answered other arity texts and ACL HELP/LOAD/SAVE were
+    accepted by the zero-copy parser only) -/
+theorem parsers_agree : C16_parsers_agree := by
+  intro f
+  match f with
+  | [] => rfl
+  | name :: args =>
+    cases args with
+    | nil =>
+      simp only [parseCmdZc, zcArityErr, List.lookup]
+      cases parseCmd [name] with
+      | ok c => rfl
+      | error e => cases e <;> rfl
+    | cons sub r =>
+      simp only [parseCmdZc, zcAclStubs, List.contains_nil, Bool.false_eq_true, and_false, if_false, zcArityErr, List.lookup]
+      cases parseCmd (name :: sub :: r) with
+      | ok c => rfl
+      | error e => cases e <;> rfl
 
-example : (kw (s2b "set") != s2b "ACL" && (zcArityErr.lookup (kw (s2b "set"))).isNone) = true := by decide
+/-- the zero-copy parser is case-insensitive in the same sense -/
+theorem parse_case_insensitive_zc (f f' : List Bytes) (h : frameVariant table f f' = true) :
+    parseCmdZc f = parseCmdZc f' := by
+  rw [parsers_agree f, parsers_agree f', parse_case_insensitive f f' h]
 
-/-- LPUSH with too few arguments: the two parsers answer different texts (known finding) -/
-theorem parsers_differ_lpush :
+/-- the repaired cases, pinned: the former witnesses of the known findings -/
+theorem lpush_arity_text_same :
     parseCmd [s2b "LPUSH", s2b "k"] = .error (.arity (s2b "LPUSH requires at least 2 arguments")) ∧
-    parseCmdZc [s2b "LPUSH", s2b "k"] = .error (.arity (s2b "LPUSH requires key and values")) := by decide
+    parseCmdZc [s2b "LPUSH", s2b "k"] = .error (.arity (s2b "LPUSH requires at least 2 arguments")) := by decide
 
-/-- ACL HELP: an error in the simulation parser, a command in the production parser (known finding) -/
-theorem parsers_differ_acl_help :
-    parseCmd [s2b "ACL", s2b "HELP"] = .error (.body (.fmt .unknownAcl (s2b "HELP"))) ∧
-    parseCmdZc [s2b "ACL", s2b "HELP"] = .ok ⟨s2b "Unknown", [.s (s2b "ACL HELP")]⟩ := by decide
+theorem acl_help_same :
+    parseCmd [s2b "ACL", s2b "HELP"] = .ok ⟨s2b "Unknown", [.s (s2b "ACL HELP")]⟩ ∧
+    parseCmdZc [s2b "acl", s2b "help"] = .ok ⟨s2b "Unknown", [.s (s2b "ACL HELP")]⟩ := by decide
 
-theorem parsers_agree_counterexample : ¬ C16_parsers_agree := by
-  intro h
-  have := h [s2b "LPUSH", s2b "k"]
-  rw [parsers_differ_lpush.1, parsers_differ_lpush.2] at this
-  exact absurd this (by decide)
-
-/-- neither parser answers a command or an error: `SCAN 0 MATCH` and `EVAL s -1` panic (known finding) -/
-theorem parse_panics :
-    parseCmd [s2b "SCAN", s2b "0", s2b "MATCH"] = .error (.body .crash) ∧
-    parseCmd [s2b "EVAL", s2b "return 1", s2b "-1"] = .error (.body .crash) := by decide
+/-- `SCAN 0 MATCH` and `EVAL s -1` used to panic in both parsers; they are errors now -/
+theorem former_panics_are_errors :
+    parseCmd [s2b "SCAN", s2b "0", s2b "MATCH"] = .error (.body (.lit .syntax)) ∧
+    parseCmd [s2b "HSCAN", s2b "h", s2b "0", s2b "COUNT"] = .error (.body (.lit .syntax)) ∧
+    parseCmd [s2b "EVAL", s2b "return 1", s2b "-1"] = .error (.body (.lit .evalNegKeys)) ∧
+    parseCmd [s2b "EVALSHA", s2b "abc", s2b "-9223372036854775808"] = .error (.body (.lit .evalNegKeys)) := by decide
 
 /-! ## 4. the redis.call translator -/
 
@@ -383,10 +356,10 @@ theorem lua_set_keepttl_rejected :
     (parseCmd [s2b "SET", s2b "k", s2b "v", s2b "KEEPTTL"]).isOk = true ∧
     parseLua [s2b "SET", s2b "k", s2b "v", s2b "KEEPTTL"] = .error (.body (.fmt .luaUnknownSet (s2b "KEEPTTL"))) := by decide
 
-/-- … and lacks the NX/XX conflict test -/
-theorem lua_set_nx_xx_accepted :
+/-- … but has the NX/XX conflict test since the fix -/
+theorem lua_set_nx_xx_rejected :
     parseCmd [s2b "SET", s2b "k", s2b "v", s2b "NX", s2b "XX"] = .error (.body (.lit .nxxx)) ∧
-    (parseLua [s2b "SET", s2b "k", s2b "v", s2b "NX", s2b "XX"]).isOk = true := by decide
+    parseLua [s2b "SET", s2b "k", s2b "v", s2b "NX", s2b "XX"] = .error (.body (.lit .nxxx)) := by decide
 
 /-- different error text for the same mistake -/
 theorem lua_error_text_differs :
@@ -476,10 +449,9 @@ theorem lua_roundtrip_counterexample : ¬ C16_lua_roundtrip := by
   rw [nil_array_becomes_nil_bulk] at this
   exact Resp.noConfusion this
 
-/-- exception 3 (known finding): a Lua float is answered as its text, not as an integer -/
-theorem lua_number_becomes_string : luaToResp (.num 3) = .bulk (some (s2b "3")) := by
-  simp [luaToResp, intText]; decide
-
+/-- repaired: a Lua float is answered as an integer reply (Redis drops the fraction) -/
+theorem lua_number_becomes_integer (i : Int) : luaToResp (.num i) = .int i := by
+  simp [luaToResp]
 
 /-! ## 6. option order (SET, EXPIRE, PEXPIRE, GETEX) -/
 
@@ -777,15 +749,19 @@ theorem find_lua_zadd : findEntry luaTable (s2b "ZADD") = some (.cmd luaZaddSpec
 theorem find_zadd : findEntry table (s2b "ZADD") = some (.cmd zaddSpec) := by rfl
 theorem find_lua_zrange : findEntry luaTable (s2b "ZRANGE") = some (.cmd luaZrangeSpec) := by rfl
 theorem find_zrange : findEntry table (s2b "ZRANGE") = some (.cmd zrangeSpec) := by rfl
+def luaZrbsSpec : Spec := customSpec "ZRANGEBYSCORE" (.atLeast 3) (reqAtLeast "ZRANGEBYSCORE" 3)
+  (CB.zrangebyscore (aIntE .luaLimitOffset) (aIntE .luaLimitCount) .luaLimitMissing .unknownZrbs)
+def zrbsSpec : Spec := customSpec "ZRANGEBYSCORE" (.atLeast 3) (reqAtLeast "ZRANGEBYSCORE" 3)
+  (CB.zrangebyscore aInt aInt .limitMissing .unknownZrbs)
+theorem find_lua_zrbs : findEntry luaTable (s2b "ZRANGEBYSCORE") = some (.cmd luaZrbsSpec) := by rfl
+theorem find_zrbs : findEntry table (s2b "ZRANGEBYSCORE") = some (.cmd zrbsSpec) := by rfl
 
 /-- proved form of "redis.call parses like the RESP parser": whenever the translator accepts a
-    frame (other than ZRANGEBYSCORE, whose LIMIT count it parses differently), the RESP grammar
-    accepts it with the SAME command — except SET with both NX and XX, which only the RESP
-    grammar refuses -/
+    frame, the RESP grammar accepts it with the SAME command (every field).  No exception is left
+    since the translator tests the SET NX/XX conflict and parses the LIMIT count as the RESP
+    parsers do. -/
 theorem lua_agrees_partial (name : Bytes) (args : List Bytes) (c : Cmd)
-    (hx : kw name ≠ s2b "ZRANGEBYSCORE") (h : parseLua (name :: args) = .ok c) :
-    parseCmd (name :: args) = .ok c ∨
-    (kw name = s2b "SET" ∧ parseCmd (name :: args) = .error (.body (.lit .nxxx))) := by
+    (h : parseLua (name :: args) = .ok c) : parseCmd (name :: args) = .ok c := by
   simp only [parseLua] at h
   cases he : findEntry luaTable (kw name) with
   | none => rw [he] at h; simp at h
@@ -806,11 +782,9 @@ theorem lua_agrees_partial (name : Bytes) (args : List Bytes) (c : Cmd)
         subst he
         have hb : Bodies.luaSet args = .ok c := hbody
         rw [parse_of_find (s := setSpec) (by rw [h1]; exact find_set), run_of (s := setSpec) har]
-        rcases luaSet_ok args c hb with h' | h'
-        · left; show liftB (Bodies.set args) = _; rw [h']; rfl
-        · right; refine ⟨h1, ?_⟩; show liftB (Bodies.set args) = _; rw [h']; rfl
-      · left
-        by_cases h2 : kw name = s2b "EXPIRE"
+        show liftB (Bodies.set args) = _
+        rw [luaSet_ok args c hb]; rfl
+      · by_cases h2 : kw name = s2b "EXPIRE"
         · rw [h2, find_lua_expire] at he
           simp only [Option.some.injEq, Entry.cmd.injEq] at he
           subst he
@@ -844,24 +818,33 @@ theorem lua_agrees_partial (name : Bytes) (args : List Bytes) (c : Cmd)
                   run_of (s := zrangeSpec) (by simp [zrangeSpec, customSpec, Arity.ok, hl])]
                 show liftB (Bodies.zrange (s2b "ZRange") args) = _
                 rw [luaZrange_ok args c hl hb]; rfl
-              · -- a DSL entry: the table-level test applies
-                have hnc : luaCustoms.contains l.name = false := by
-                  rw [hname]
-                  simp only [luaCustoms, List.contains_cons, List.contains_nil, Bool.or_false, Bool.or_eq_false_iff,
-                    beq_eq_false_iff_ne, ne_eq]
-                  exact ⟨h1, h2, h3, h4, h5, hx⟩
-                simp only [luaCheck, hnc, Bool.false_or] at hchk
-                rw [hname] at hchk
-                cases hm : findEntry table (kw name) with
-                | none => rw [hm] at hchk; simp at hchk
-                | some e' =>
-                  rw [hm] at hchk
-                  cases e' with
-                  | family a b c d => simp at hchk
-                  | cmd m =>
-                    simp only [Bool.and_eq_true] at hchk
-                    rw [parse_of_find hm, run_of (arity_sub hchk.1 _ har), body_ok_sub hchk.2 args c hbody]
-                    rfl
+              · by_cases h6 : kw name = s2b "ZRANGEBYSCORE"
+                · rw [h6, find_lua_zrbs] at he
+                  simp only [Option.some.injEq, Entry.cmd.injEq] at he
+                  subst he
+                  have hb : Bodies.zrangebyscore (aIntE .luaLimitOffset) (aIntE .luaLimitCount) .luaLimitMissing
+                      .unknownZrbs args = .ok c := hbody
+                  rw [parse_of_find (s := zrbsSpec) (by rw [h6]; exact find_zrbs), run_of (s := zrbsSpec) har]
+                  show liftB (Bodies.zrangebyscore aInt aInt .limitMissing .unknownZrbs args) = _
+                  rw [zrangebyscore_ok (aIntE .luaLimitOffset) (aIntE .luaLimitCount) aInt aInt .luaLimitMissing .limitMissing .unknownZrbs .unknownZrbs rfl rfl args c hb]; rfl
+                · -- a DSL entry: the table-level test applies
+                  have hnc : luaCustoms.contains l.name = false := by
+                    rw [hname]
+                    simp only [luaCustoms, List.contains_cons, List.contains_nil, Bool.or_false, Bool.or_eq_false_iff,
+                      beq_eq_false_iff_ne, ne_eq]
+                    exact ⟨h1, h2, h3, h4, h5, h6⟩
+                  simp only [luaCheck, hnc, Bool.false_or] at hchk
+                  rw [hname] at hchk
+                  cases hm : findEntry table (kw name) with
+                  | none => rw [hm] at hchk; simp at hchk
+                  | some e' =>
+                    rw [hm] at hchk
+                    cases e' with
+                    | family a b c d => simp at hchk
+                    | cmd m =>
+                      simp only [Bool.and_eq_true] at hchk
+                      rw [parse_of_find hm, run_of (arity_sub hchk.1 _ har), body_ok_sub hchk.2 args c hbody]
+                      rfl
 
 /-- `lua_agrees_partial` is an equality of whole commands, i.e. of EVERY field (key, value, ex, px,
     exat, pxat, nx, xx, get, keepttl for SET).  Spelled out for the field no reply shows: a SET the
@@ -880,9 +863,12 @@ theorem lua_set_never_keepttl (name k v : Bytes) (opts : List Bytes) (c : Cmd)
   | error e => rw [hs] at hb'; simp at hb'
   | ok s =>
     rw [hs] at hb'
-    simp only [Except.ok.injEq] at hb'
-    subst hb'
-    exact ⟨rfl, _, _, _, _, _, _, _, rfl⟩
+    simp only at hb'
+    split at hb'
+    · simp at hb'
+    · simp only [Except.ok.injEq] at hb'
+      subst hb'
+      exact ⟨rfl, _, _, _, _, _, _, _, rfl⟩
 
 example : parseLua [s2b "SET", s2b "k", s2b "v2"] =
     .ok ⟨s2b "Set", [.s (s2b "k"), .d (s2b "v2"), .none, .none, .none, .none, .b false, .b false, .b false, .b false]⟩ := by decide
@@ -891,12 +877,15 @@ example : parseLua [s2b "SET", s2b "k", s2b "v2"] =
 example : parseLua [s2b "hset", s2b "h", s2b "f", s2b "1"] = parseCmd [s2b "hset", s2b "h", s2b "f", s2b "1"] ∧
     (parseLua [s2b "hset", s2b "h", s2b "f", s2b "1"]).isOk = true := by decide
 
-/-- the excluded command: a LIMIT count of 2^63 is a `usize` for the translator and not an
-    `isize` for the RESP grammar (known finding) -/
-theorem lua_zrangebyscore_limit_differs :
-    (parseLua [s2b "ZRANGEBYSCORE", s2b "z", s2b "0", s2b "1", s2b "LIMIT", s2b "0", s2b "9223372036854775808"]).isOk = true ∧
-    parseCmd [s2b "ZRANGEBYSCORE", s2b "z", s2b "0", s2b "1", s2b "LIMIT", s2b "0", s2b "9223372036854775808"] =
-      .error (.body (.lit .notInt)) := by decide
+/-- the former exceptions, pinned: `LIMIT 0 -1` is accepted by both with the same command, a count
+    of 2^63 is rejected by both -/
+theorem lua_zrangebyscore_limit_same :
+    parseLua [s2b "ZRANGEBYSCORE", s2b "z", s2b "0", s2b "1", s2b "LIMIT", s2b "0", s2b "-1"] =
+      parseCmd [s2b "ZRANGEBYSCORE", s2b "z", s2b "0", s2b "1", s2b "LIMIT", s2b "0", s2b "-1"] ∧
+    (parseLua [s2b "ZRANGEBYSCORE", s2b "z", s2b "0", s2b "1", s2b "LIMIT", s2b "0", s2b "-1"]).isOk = true ∧
+    (parseLua [s2b "ZRANGEBYSCORE", s2b "z", s2b "0", s2b "1", s2b "LIMIT", s2b "0", s2b "9223372036854775808"]).isOk = false ∧
+    (parseCmd [s2b "ZRANGEBYSCORE", s2b "z", s2b "0", s2b "1", s2b "LIMIT", s2b "0", s2b "9223372036854775808"]).isOk = false := by
+  decide
 
 end C16
 end RedisVerif
